@@ -80,6 +80,7 @@ def run(ctx):
         from .. import named
         named.monitor(ctx, ['bezier:f_ref', 'bezier:eulerB321_to_quat', 'bezier:dcm_to_quat', 'mr_ref_traj:mr_ref_traj', 'rdd2:position_control', 'rdd2:input_auto_level', 'rdd2_loglinear:se23_position_control', 'rdd2:rotate_vector_w_to_b', 'rdd2:rotate_vector_wbto_w'], ctx.rng("named"))
         ctx.require("call_by_argument_name", "(by-name calls never evaluated)")
+        named.derivation_history(ctx, ['bezier', 'mr_ref_traj', 'rdd2_loglinear'], ctx.rng("named2"))
     units = ["position_control", "se23_position_control", "f_ref", "mr_ref_traj", "flat_rates:f_ref", "flat_rates:mr_ref_traj",
              "ref_variants_agree", "helpers"]
     for i, u in enumerate(units):
